@@ -730,17 +730,56 @@ func indexByte(s string, c byte) int {
 	return -1
 }
 
+// c10ManySignatures: the fixed-width encodings of ECDSA signatures (RFC 6605: r | s, each padded to the
+// curve size) have a one-in-256 case per integer in which the value is an octet short. Hundreds of
+// signatures over one small RRset per case make those cases certain to occur; each must verify with
+// Verify and independently.
+func c10ManySignatures(w *core.W, j int) {
+	alg := []uint8{dns.ECDSAP256SHA256, dns.ECDSAP384SHA384, dns.ECDSAP256SHA256, dns.ED25519, dns.RSASHA256}[j%5]
+	k, err := getKey(alg, algBits[alg][0], "many.example.", 256, 2)
+	if err != nil {
+		w.Inconclusive("keygen:" + err.Error())
+		return
+	}
+	n := map[uint8]int{dns.ECDSAP256SHA256: 500, dns.ECDSAP384SHA384: 300, dns.ED25519: 60, dns.RSASHA256: 30}[alg]
+	zone := mustName("many.example.")
+	rec := &model.Rec{Owner: append(model.Name{[]byte("a")}, zone...), Type: 1, Class: 1, TTL: 60, L: model.Layouts[1], Vals: []any{[]byte{192, 0, 2, byte(j)}}}
+	set := c10Set{recs: []*model.Rec{rec}}
+	short := 0
+	for i := 0; i < n; i++ {
+		sig := &dns.RRSIG{Algorithm: alg, KeyTag: k.Key.KeyTag(), SignerName: "many.example.", Inception: 1_700_000_000, Expiration: 1_800_000_000 + uint32(i)}
+		if err := sig.Sign(k.Priv, set.build()); err != nil {
+			w.Violation("C10/sign-fails/A/"+algName(alg), fmt.Sprintf("signature %d of %d: %v", i, n, err), nil)
+			return
+		}
+		w.Eval(1)
+		raw, _ := base64.StdEncoding.DecodeString(sig.Signature)
+		if len(raw) >= 2 && (raw[0] == 0 || raw[len(raw)/2] == 0) {
+			short++
+		}
+		ok, why := c10ModelAccepts(sig, k.Key, set)
+		verr := sig.Verify(k.Key, set.build())
+		if !ok || verr != nil {
+			w.Violation("C10/sign-output-invalid/many/"+algName(alg), fmt.Sprintf("signature %d of %d over one small RRset: independent verification %v (%s), Verify: %v; signature %x", i, n, ok, why, verr, raw), map[string]any{"alg": algName(alg)})
+			return
+		}
+	}
+	w.Count("many_signatures", n)
+	w.Count("many_signatures_with_leading_zero_half", short)
+}
+
 func init() {
 	plan, run := sections(section{"rrsets", tiered(360, 12000), c10Case},
 		section{"concurrent", tiered(24, 400), func(w *core.W, j int) {
 			w.Eval(1)
 			concurrentRRSIGVerify(w, j, "C10/concurrent-verify-fails")
-		}})
+		}},
+		section{"many-signatures", tiered(15, 300), c10ManySignatures})
 	core.Register(&core.Monitor{
 		ID: "C10", Level: "exploration", Plan: plan, Run: run, MaxParallel: 16, CaseTimeout: 300e9,
 		Rule: "RRsets of every signable registry type (1..6 records, repeated records, mixed case, escaped names, wildcard and multi-label owners) x RSASHA1/256(1024,2048)/512, ECDSA P-256/P-384, Ed25519 with keys generated per run; " +
 			"oracle = independent verifier (own RFC 4034 s.3.1.8.1/6.2/6.3 + RFC 6840 s.5.1 canonical form, own RFC 3110/6605/8080 key decoding, Go crypto): Sign output must verify independently and with Verify; harness-made signatures over the model form must be accepted; " +
-			"irrelevant variants (order, repeats, TTL, owner case, s.6.2 name case, wildcard expansions of 1..3 labels, RFC 1035 \\X spellings of letters in owner labels and embedded names - verified and signed from) must verify; RRSIG/DNSKEY owners differing by 0x20 in a non-letter (^~ [{ ]} `@) must not; ~60 single-field alterations of RRSIG/DNSKEY/RRset and signature/key bit flips (all signature bits in thorough): Verify==nil implies the model accepts; 8 goroutines verifying 4 valid (RRSIG, key, RRset) triples of their own and a shared one at the same time: every call succeeds; non-trivial = distinct signed RRset",
+			"irrelevant variants (order, repeats, TTL, owner case, s.6.2 name case, wildcard expansions of 1..3 labels, RFC 1035 \\X spellings of letters in owner labels and embedded names - verified and signed from) must verify; RRSIG/DNSKEY owners differing by 0x20 in a non-letter (^~ [{ ]} `@) must not; ~60 single-field alterations of RRSIG/DNSKEY/RRset and signature/key bit flips (all signature bits in thorough): Verify==nil implies the model accepts; hundreds of signatures per key over one small RRset (the one-in-256 short r, s of RFC 6605 encodings), each verified both ways; 8 goroutines verifying 4 valid (RRSIG, key, RRset) triples of their own and a shared one at the same time: every call succeeds; non-trivial = distinct signed RRset",
 		Assumptions: []string{"NXT, SIG and A6 RRsets are not generated (obsolete)", "signature validity windows are not part of Verify (see C17 for ValidityPeriod)"},
 		MinObserved: []string{"signed", "harness_signatures", "alterations_rejected"},
 	})
